@@ -96,12 +96,12 @@ def handleEnum (m : Mode) (before text : String) (t : T) (recs : List Rec) (call
     (wfF dumpF textF : String) : Verdict :=
   -- the oracle's view of the input tree, computed once (`neighbourOK2V_eq`, `f22RegionV_eq`:
   -- the predicates on views are the Spec predicates on the trees)
-  let tv := viewOf t
+  let tv := viewOf1 t
   let inner := tv.set.length
   let rs := rearrangements t
-  let scope := inScope t
+  let scope := inScope1 t
   let tags := tagIf t.rooted "rooted" ++ tagIf (!t.rooted) "unrooted" ++ tagIf (inner ≥ 2) "nontrivial" ++
-    tagIf scope "inscope" ++ tagIf (pposOK t) "pposok" ++ tagIf (rs.any (·.bUp)) "rootside" ++
+    tagIf scope "inscope" ++ tagIf (tipRooted t) "tip-rooted" ++ tagIf (pposOK t) "pposok" ++ tagIf (rs.any (·.bUp)) "rootside" ++
     tagIf ((rootSplit t).isSome && t.rooted) "f22region" ++
     tagIf (t.kids.any fun k => k.2.isLeaf) "tip-at-root" ++
     tagIf (innerBranchesShape t == inner) "shapecount" ++
@@ -112,7 +112,7 @@ def handleEnum (m : Mode) (before text : String) (t : T) (recs : List Rec) (call
   -- ORACLE, on the implementation's own output only
   let ns : List (Option T) := recs.map fun r => T.undump r.dump1
   let nsT : List T := ns.filterMap id
-  let nvo : List (Option View) := ns.map (·.map viewOf)
+  let nvo : List (Option View) := ns.map (·.map viewOf1)
   let nviews : List View := nvo.filterMap id
   let perRec : List (Option String) := ((recs.zip nvo).zip (List.range recs.length)).map fun ((r, ov), i) =>
     let at_ := " at rearrangement " ++ toString i
@@ -152,7 +152,7 @@ def handleEnum (m : Mode) (before text : String) (t : T) (recs : List Rec) (call
   let mnsT := mallT.take calls
   -- the order of the enumeration is not part of obs_C17: the neighbours are compared as a
   -- multiset, and when the callback stopped the enumeration, as a sub-multiset of the model's
-  let mviews := mallT.map viewOf
+  let mviews := mallT.map viewOf1
   let msets := sortSets (mviews.map (·.set))
   let isets := sortSets (nviews.map (·.set))
   let mdata := sortStrings (mviews.map dataKeyV)
@@ -224,8 +224,11 @@ def handleEnum (m : Mode) (before text : String) (t : T) (recs : List Rec) (call
     else
     match tie with
     | some d => ⟨.tie, tags, d⟩
-    | none => ⟨.pass, tags ++ tagIf exact "exact" ++ tagIf (matched == nsT.length) "model-undo-exact" ++
-        tagIf (matched != nsT.length) "undo-partly-unmatched", ""⟩
+    | none =>
+      -- a neighbour that is, as a dump, none of the model's (split sets and branch data agree:
+      -- child order or parent positions differ): the model's Undo cannot be compared on it
+      if matched != nsT.length then ⟨.tie, tags, "a neighbour is dump-equal to none of the model's neighbours (child order / parent positions)"⟩
+      else ⟨.pass, tags ++ tagIf exact "exact" ++ ["model-undo-exact"], ""⟩
 
 /- what the Newick text shows of a tree: shape, child order, names, lengths, supports
    (not the parent positions, not the branch ids) -/
@@ -254,7 +257,7 @@ def textKey (t : T) : String := (stripT t).dump
 def handleCLI (t : T) (out : String) (recs : List (String × String)) : Verdict :=
   let inner := innerBranches t
   let rs := rearrangements t
-  let scope := inScope t
+  let scope := inScope1 t
   let tags := ["cli"] ++ tagIf t.rooted "rooted" ++ tagIf (!t.rooted) "unrooted" ++ tagIf (inner ≥ 2) "nontrivial" ++
     tagIf scope "inscope" ++ tagIf ((rootSplit t).isSome && t.rooted) "f22region"
   if !scope then ⟨.pass, "skip-outofscope" :: tags, ""⟩ else
@@ -264,7 +267,7 @@ def handleCLI (t : T) (out : String) (recs : List (String × String)) : Verdict 
     if r.1 != "ok" then some ("output line not a tree: " ++ r.1 ++ at_)
     else match T.undump r.2 with
       | none => some ("unreadable dump" ++ at_)
-      | some t1 => if neighbourOK2 t t1 then none else some ("output tree is not an NNI neighbour of the input" ++ at_)
+      | some t1 => if neighbourOK3 t t1 then none else some ("output tree is not an NNI neighbour of the input" ++ at_)
   let nsT : List T := recs.filterMap fun r => T.undump r.2
   let distinct := pairwiseDistinct (nsT.map (·.usplitSet))
   match firstSome (perRec ++ [if distinct then none else some "two output trees are the same tree"]) with
